@@ -162,6 +162,14 @@ impl Mnemonic {
     }
 }
 
+#[cfg(feature = "verif-hooks")]
+impl Mnemonic {
+    /// Verification hook: the mnemonic's entropy bytes.
+    pub fn verif_entropy(&self) -> &[u8] {
+        &self.buf[..self.len]
+    }
+}
+
 impl Display for Mnemonic {
     fn fmt(&self, f: &mut Formatter) -> fmt::Result {
         f.write_str(&self.to_phrase())
